@@ -135,6 +135,32 @@ impl A2 {
             out.violations.push(viol("C10", "twin_wrong_output", format!("fault-free decryption wrote {} bytes, expected the {}-byte plaintext", twin.run.sink.len(), pt.len())));
         }
         let e = exec_once(s, &input, true, monitor_for(s, &input));
+        if e.fault_log.iter().any(|(_, _, k)| *k == IoFault::EarlyEof) {
+            // The source said "end of input" before its data was exhausted. Whatever the encryptor
+            // makes of that (stop there, or report unexpected data), it must not panic, must not seal
+            // two messages under one nonce, and a file it declares complete must decrypt to a prefix
+            // of the plaintext.
+            out.trace_hash = e.hash ^ twin.hash.rotate_left(1);
+            out.steps = e.steps + twin.steps;
+            out.merge_fired(&e.fired);
+            match &e.run.outcome {
+                Outcome::Panic(p) => out.violations.push(viol("C10", "panic", format!("panicked: {}", p))),
+                Outcome::Hang => out.violations.push(viol("C10", "hang", "step budget exceeded".into())),
+                Outcome::Ok(_) if s.dir == Dir::Enc => {
+                    let (v, _) = reference_verdict(&s.mode, &e.run.sink, &mut |p, salt| ref_scrypt_cached(p, salt));
+                    if !v.accepted() || !pt.starts_with(&v.plaintext()) {
+                        out.violations.push(viol("C10", "early_eof_result_wrong", format!("after an early end-of-input the encryptor reported success with a file the reference reader {} ({} plaintext bytes, prefix: {})", if v.accepted() { "accepts" } else { "rejects" }, v.plaintext().len(), pt.starts_with(&v.plaintext()))));
+                    }
+                }
+                _ => {}
+            }
+            if let Some(r) = e.seal_reuse {
+                out.violations.push(viol("C07", "nonce_reuse", r));
+            }
+            out.signature = format!("a2|{:?}|{}|earlyeof|{}", s.dir, s.mode.class(), e.run.outcome.class());
+            out.nontrivial = true;
+            return out;
+        }
         out.trace_hash = e.hash ^ twin.hash.rotate_left(1);
         out.steps = e.steps + twin.steps;
         out.merge_fired(&e.fired);
@@ -173,6 +199,27 @@ impl A2 {
                     out.violations.push(viol("C10", "wrong_side", format!("only transient faults on {:?} fired, error reported is {} ({:?})", e.transient_sides, info.variant, info.side)));
                 }
             }
+        }
+        // a failed operation must leave nothing behind that changes the next one on the same thread
+        if e.any_fault && matches!(e.run.outcome, Outcome::Err(_)) && twin.run.outcome.is_ok() {
+            let again = exec_once(s, &input, false, monitor_for(s, &input));
+            out.steps += again.steps;
+            if !(again.run.outcome.is_ok() && again.run.sink == twin.run.sink) {
+                out.violations.push(viol("C10", "state_left_by_failed_operation", format!("the fault-free operation, repeated right after the failed one on the same thread, gives {:?} with {} bytes (before the failure: {} bytes)", again.run.outcome.class(), again.run.sink.len(), twin.run.sink.len())));
+                if s.dir == Dir::Dec && !pt.starts_with(&again.run.sink) {
+                    out.violations.push(viol("C04", "bytes_of_an_earlier_decryption_released", format!("a decryption following a failed one wrote {} bytes that are not a prefix of its own plaintext", again.run.sink.len())));
+                }
+                if s.dir == Dir::Enc && again.run.outcome.is_ok() {
+                    let want = s.mode.header_len() + 32 * again.nonempty_reads.max(1) + pt.len();
+                    if again.run.sink.len() != want {
+                        out.violations.push(viol("C08", "size_after_earlier_failure", format!("an encryption following a failed one produced {} bytes instead of {}", again.run.sink.len(), want)));
+                    }
+                }
+            }
+            if let Some(m) = again.monitor_violation {
+                out.violations.push(viol("C04", "release_before_auth", m));
+            }
+            out.count("probe.rerun_after_failure", 1);
         }
         // a fault-free encryption over any conforming source must produce a file that the
         // independent reader decrypts to exactly the plaintext
@@ -292,7 +339,7 @@ impl Family for A2 {
     }
     fn budget(&self, tier: Tier, p: &str) -> u64 {
         let q = match p {
-            "C10" => 1500,
+            "C10" => 1100,
             "C04" => 700,
             _ => 300,
         };
@@ -408,6 +455,15 @@ impl Family for A2 {
             for kind in [IoFault::Interrupted, IoFault::Hard, IoFault::WouldBlock] {
                 let mut rs = base.rs.clone();
                 rs.faults = vec![(k, kind)];
+                one(rs, base.ws.clone());
+            }
+        }
+        // the source signals end of input early at each read call (encryption only: a ciphertext
+        // that ends early is a truncated artefact, i.e. a storage fault)
+        if base.dir == Dir::Enc {
+            for k in 0..r.min(40) {
+                let mut rs = base.rs.clone();
+                rs.faults = vec![(k, IoFault::EarlyEof)];
                 one(rs, base.ws.clone());
             }
         }
